@@ -559,3 +559,120 @@ func ruleWriterParam(e *Engine, r *Report, minInst int, pkgs ...string) {
 	}
 	r.floor("OWN-writer-param", n, minInst)
 }
+
+// ---------------------------------------------------------------------------
+// TBL-codec-lenprefix: in the size functions of the hand-written/generated
+// protobuf codecs a varint length prefix measures exactly the bytes that
+// follow it: whenever sov(uint64(X)) with X an `int` (a length or a nested
+// size, not a field value) is a summand, X itself is a summand of the same
+// sum. A prefix computed from a different quantity than the payload makes
+// Size() disagree with what MarshalTo writes.
+
+// flattenSum collects every node of a tree of int additions: inner sums
+// (a named intermediate such as mapEntrySize is one) and leaves.
+func flattenSum(v ssa.Value, out *[]ssa.Value, d int) {
+	*out = append(*out, v)
+	if b, ok := v.(*ssa.BinOp); ok && b.Op.String() == "+" && d < 32 {
+		flattenSum(b.X, out, d+1)
+		flattenSum(b.Y, out, d+1)
+	}
+}
+
+// sameSizeExpr: two SSA values denote the same length: the same value, two
+// len() calls of the same value, or structurally equal field/call paths.
+func sameSizeExpr(a, b ssa.Value) bool {
+	if a == b {
+		return true
+	}
+	ca, okA := a.(*ssa.Call)
+	cb, okB := b.(*ssa.Call)
+	if okA && okB {
+		ba, isA := ca.Call.Value.(*ssa.Builtin)
+		bb, isB := cb.Call.Value.(*ssa.Builtin)
+		if isA && isB && ba.Name() == "len" && bb.Name() == "len" && len(ca.Call.Args) == 1 && len(cb.Call.Args) == 1 {
+			return ca.Call.Args[0] == cb.Call.Args[0] || (exprKey(ca.Call.Args[0]) != "" && exprKey(ca.Call.Args[0]) == exprKey(cb.Call.Args[0]))
+		}
+	}
+	ka := exprKey(a)
+	return ka != "" && ka == exprKey(b)
+}
+
+func ruleCodecLenPrefix(e *Engine, r *Report, minInst int, pkg string, sovName string) {
+	p := e.pkgTypes(pkg)
+	if p == nil {
+		r.undecided("ANCHOR", pkg, "package not found")
+		return
+	}
+	n := 0
+	for _, fn := range e.ScopeFuncs() {
+		if fnPkg(fn) != p || fn.Name() == sovName {
+			continue // every function of the codec package that sizes something (Size*, helpers)
+		}
+		// roots of sums: + expressions that are not themselves operands of a +
+		forEachInstr(fn, func(in ssa.Instruction) {
+			b, ok := in.(*ssa.BinOp)
+			if !ok || b.Op.String() != "+" {
+				return
+			}
+			if refs := b.Referrers(); refs != nil {
+				for _, ref := range *refs {
+					if pb, isB := ref.(*ssa.BinOp); isB && pb.Op.String() == "+" {
+						return // inner node
+					}
+				}
+			}
+			var terms []ssa.Value
+			flattenSum(b, &terms, 0)
+			// each length prefix needs its own payload occurrence: group the
+			// prefixes by what they measure and count the occurrences of that
+			// quantity among the nodes of the sum
+			type grp struct {
+				x     ssa.Value
+				calls []*ssa.Call
+			}
+			var groups []*grp
+			for _, t := range terms {
+				c, ok := t.(*ssa.Call)
+				if !ok {
+					continue
+				}
+				sc := c.Call.StaticCallee()
+				if sc == nil || sc.Name() != sovName || len(c.Call.Args) != 1 {
+					continue
+				}
+				cv, ok := c.Call.Args[0].(*ssa.Convert)
+				if !ok {
+					continue
+				}
+				bt, isB := cv.X.Type().(*types.Basic)
+				if !isB || bt.Kind() != types.Int {
+					continue // a field value, not a length
+				}
+				var g *grp
+				for _, x := range groups {
+					if sameSizeExpr(x.x, cv.X) {
+						g = x
+					}
+				}
+				if g == nil {
+					g = &grp{x: cv.X}
+					groups = append(groups, g)
+				}
+				g.calls = append(g.calls, c)
+			}
+			for _, g := range groups {
+				occ := 0
+				for _, u := range terms {
+					if sameSizeExpr(u, g.x) {
+						occ++
+					}
+				}
+				n++
+				r.check(occ >= len(g.calls), "TBL-codec-lenprefix", fname(fn)+": length prefix #"+itoa(n)+" measures its payload", e.ipos(g.calls[0]),
+					"every prefixed length is a summand of the same sum",
+					itoa(len(g.calls))+" length prefix(es) are computed from "+e.describeValue(g.x)+", which is added "+itoa(occ)+" time(s) as a payload in the same sum: a prefix measures something other than the bytes that follow it, so Size() and the encoder disagree when the two differ in varint width")
+			}
+		})
+	}
+	r.floor("TBL-codec-lenprefix", n, minInst)
+}
